@@ -245,8 +245,9 @@ class Body:
     def preds(self, bb):
         if self._preds is None:
             self._preds = [[] for _ in self.blocks]
+            reach = self.reachable_blocks()
             for i in range(len(self.blocks)):
-                if self.blocks[i]["cleanup"]:
+                if self.blocks[i]["cleanup"] or i not in reach:   # an unreachable block is nobody's predecessor
                     continue
                 for s in self.succ(i):
                     self._preds[s].append(i)
@@ -800,6 +801,55 @@ def apply_field_reference(j, ref):
     return sorted(("%s::%s.%s" % k, v) for k, v in ren.items())
 
 
+def prune_literal_try(bodies_json):
+    """`Err(e)?` / `None?` never continues: the `?` applied to a value that is, at that point, a literal `Err(..)` / `None`
+    built just before (`return Err(e)` spelled `Err(e)?`) only ever takes its Break edge.  The Continue edge is removed from
+    the CFG, so that dominance-based rules (guards, typestate) read the two spellings alike.  Returns the number of edges removed."""
+    n = 0
+    for b in bodies_json:
+        blocks = b.get("blocks", [])
+        # definitions per local (whole-local assignments and call destinations)
+        ndefs, aggdef = {}, {}
+        for blk in blocks:
+            for st in blk["stmts"]:
+                if st.get("s") == "assign":
+                    l = st["lhs"]["l"]
+                    ndefs[l] = ndefs.get(l, 0) + 1
+                    if not st["lhs"]["p"] and st["rv"].get("r") == "agg" and st["rv"].get("variant") in ("Err", "None") and str(st["rv"].get("adt", "")).split("<")[0].endswith(("result::Result", "option::Option")):
+                        aggdef[l] = st["rv"]["variant"]
+            t = blk["term"]
+            if t.get("t") == "call" and t.get("dest"):
+                l = t["dest"]["l"]
+                ndefs[l] = ndefs.get(l, 0) + 1
+        for blk in blocks:
+            t = blk["term"]
+            if t.get("t") != "call" or t.get("target") is None or len(t.get("args", [])) != 1:
+                continue
+            f = t.get("func", {})
+            if not str(f.get("fn", "")).endswith("ops::Try::branch") and not str(f.get("res", "")).endswith("Try>::branch"):
+                continue
+            a = t["args"][0]
+            if a.get("k") not in ("move", "copy") or a.get("p") or aggdef.get(a["l"]) is None or ndefs.get(a["l"]) != 1:
+                continue
+            tb = blocks[t["target"]]
+            tt = tb["term"]
+            if tt.get("t") != "switch":
+                continue
+            dl = t["dest"]["l"]
+            disc = None
+            for st in tb["stmts"]:
+                if st.get("s") == "assign" and st["rv"].get("r") == "discr" and st["rv"]["a"].get("l") == dl and not st["rv"]["a"].get("p"):
+                    disc = st
+            if disc is None or tt["discr"].get("l") != disc["lhs"]["l"]:
+                continue
+            brk = [v["discr"] for v in disc["rv"].get("variants", []) if v["name"] == "Break"]
+            tg = dict((v, k) for v, k in tt["targets"])
+            if len(brk) == 1 and brk[0] in tg:
+                tb["term"] = {"t": "goto", "target": tg[brk[0]], "span": tt.get("span")}
+                n += 1
+    return n
+
+
 def fold_literal_const_items(bodies_json):
     """A named constant whose initialiser is one literal (`const MAX_BITS: i64 = 64;`, `const NAME: &str = "n";`) is read as that
     literal wherever it is used: naming a magic number is not a change of behaviour.  Returns {const item: literal} for the
@@ -876,6 +926,7 @@ class Facts:
                 self.inline_error = repr(_e)
             self.closure_aliases = apply_closure_reference(self.j["bodies"], _ref.get("closures", {}))
         self.literal_consts = fold_literal_const_items(self.j["bodies"])
+        self.pruned_literal_try = prune_literal_try(self.j["bodies"])
         self.path = path
         self.meta = meta or {}
         self.config = self.j["config"]
